@@ -1166,9 +1166,10 @@ def expr_fn(
             if ret == math.floor(ret):
                 return str(int(ret))
         return str(ret)
-    except (ArithmeticError, ValueError, TypeError) as e:
+    except (ArithmeticError, ValueError, TypeError, RecursionError) as e:
         # math domain and range errors, infinite or NaN results, integers
-        # with too many digits to print, non-integer digits for round
+        # with too many digits to print, non-integer digits for round,
+        # parentheses or unary operators nested beyond the recursion limit
         return '<strong class="error">Expression error: {}</strong>'.format(
             html.escape(str(e))
         )
